@@ -507,6 +507,34 @@ fn paths_for(cfg: &Cfg, ops: &[Op], order: (u64, u64), t: &mut Tally) {
         r.extend(r2);
         variants.push(("moved-between-threads", (r, shared.lock().unwrap().clone())));
     }
+    // a sink whose flush() fails (a buffer in front of a closed pipe): whatever the muxer makes of
+    // that, every finish entry point makes the same of it
+    {
+        struct FlushFails(Arc<Mutex<Vec<u8>>>);
+        impl Write for FlushFails {
+            fn write(&mut self, b: &[u8]) -> std::io::Result<usize> {
+                self.0.lock().unwrap().extend_from_slice(b);
+                Ok(b.len())
+            }
+            fn flush(&mut self) -> std::io::Result<()> {
+                Err(std::io::Error::other("flush failed"))
+            }
+        }
+        let mut got: Vec<(&str, Vec<String>, Vec<u8>)> = vec![];
+        for (name, fin) in [("finish_in_place", Op::FinishInPlace), ("finish", Op::Finish), ("flush", Op::Flush), ("finish_with_stats", Op::FinishStats), ("finish_in_place_with_stats", Op::FinishInPlaceStats)] {
+            let shared = Arc::new(Mutex::new(Vec::new()));
+            let r = run_on(builder(cfg, FlushFails(shared.clone())), ops, &fin);
+            let bytes = shared.lock().unwrap().clone();
+            got.push((name, r, bytes));
+        }
+        t.evaluations += 1;
+        for g in &got[1..] {
+            if g.1 != got[0].1 || g.2 != got[0].2 {
+                let what = if g.2 != got[0].2 { "bytes" } else { "results" };
+                t.violation(&format!("C17/path/flush-failing-sink/{}/{what}", g.0), order, || format!("{} | {} | on a sink whose flush fails {} answers {:?}, finish_in_place {:?}", cfg.short(), brief_ops(ops), g.0, g.1.last(), got[0].1.last()), || json!({"engine": "E1-paths", "cfg": cfg, "ops": ops, "path": "flush-failing-sink"}));
+            }
+        }
+    }
     // flush is finish under another name in every state: also on a muxer that an in-place finish
     // has already completed (and on one whose history ends in a second in-place finish)
     for extra in [vec![Op::FinishInPlace], vec![Op::FinishInPlaceStats, Op::FinishInPlace]] {
